@@ -1410,6 +1410,13 @@ func c22Corpus() []c22Fixed {
 			&gpb.SetRequest{Update: []*gpb.Update{c22Upd("/top/lls", c22JS(`{"ll-str":["a"]}`)), c22Upd("/top/lls", c22JS(`{"ll-str":["a"]}`))}}, false},
 		{"json-split", "update", &gpb.SetRequest{Update: []*gpb.Update{c22Upd("/top/scalars", c22JS(`{"str":"a","u8":3}`))}},
 			&gpb.SetRequest{Update: []*gpb.Update{c22Upd("/top/scalars", c22JS(`{"u8":3}`)), c22Upd("/top/scalars", c22JS(`{"str":"a"}`))}}, false},
+		// a leaf-list that is a strict prefix of the other one (also the empty one): a mismatch both ways
+		{"mutation", "leaflist-prefix", &gpb.SetRequest{Update: []*gpb.Update{c22Upd("/top/lls/ll-str", c22LL("a"))}},
+			&gpb.SetRequest{Update: []*gpb.Update{c22Upd("/top/lls/ll-str", c22LL("a", "b"))}}, false},
+		{"mutation", "leaflist-prefix", &gpb.SetRequest{Update: []*gpb.Update{c22Upd("/top/lls", c22JS(`{"ll-str":["a","b"]}`))}},
+			&gpb.SetRequest{Update: []*gpb.Update{c22Upd("/top/lls", c22JS(`{"ll-str":["a","b","c"]}`))}}, false},
+		{"mutation", "leaflist-prefix", &gpb.SetRequest{Update: []*gpb.Update{c22Upd("/top/lls", c22JS(`{"ll-str":[]}`))}},
+			&gpb.SetRequest{Update: []*gpb.Update{c22Upd("/top/lls", c22JS(`{"ll-str":["a"]}`))}}, false},
 		// with a schema the leaf under an escaped key is silently dropped from both intents
 		{"mutation", "value-under-escaped-key", &gpb.SetRequest{Update: []*gpb.Update{c22Upd(`/top/l-str[k=x\=y]/c/z`, c22Str("1"))}},
 			&gpb.SetRequest{Update: []*gpb.Update{c22Upd(`/top/l-str[k=x\=y]/c/z`, c22Str("2"))}}, false},
